@@ -184,7 +184,7 @@ fn run_single(
                     P::C07 => rep.probes.get("window_full").is_some()
                         || rep.probes.get("window_full_state").is_some()
                         || rep.probes.get("collision_seen").is_some(),
-                    P::C10 => marks & 16 != 0,
+                    P::C10 | P::C05 => marks & 16 != 0,
                     P::C18 => false,
                 };
             }
